@@ -99,6 +99,36 @@ def known_shape_eq_after_with(ctx: Ctx) -> None:
                           {"impl_output": repr(r), "expected": "(True, True)"})
 
 
+def environment_shaped_sources(ctx: Ctx) -> None:
+    """Dependencies whose source paths look like something the environment could rewrite (~, ~user,
+    $VAR, %VAR%, ., .., relative, trailing separator): every read-only dependency method and every
+    rendering route leaves the dependency (and its source dict) structurally unchanged and equal to an
+    identically built twin."""
+    import copy as _copy
+    from htmltools import HTMLDependency, HTMLDocument, Tag
+    subdirs = ["~/verif-no-such-dir", "~", "~root/x", "$HOME/x", "${HOME}", "%TEMP%\\x", ".", "..", "./a/../b", "rel/dir/",
+               "/abs/dir/", "a b/c", "~/a b"]
+    for sd in subdirs:
+        for pkg in (None,):
+            mk = lambda: HTMLDependency("envdep", "1.0", source={"subdir": sd} if pkg is None else {"package": pkg, "subdir": sd},  # noqa: E731
+                                        script={"src": "a.js"}, stylesheet={"href": "b.css"})
+            d, twin = mk(), mk()
+            before = _copy.deepcopy(d.__dict__)
+            ops = [lambda: d.source_path_map(), lambda: d.source_path_map(lib_prefix=None, include_version=False),
+                   lambda: d.as_dict(), lambda: d.as_html_tags(), lambda: d.serialize_to_script_json(),
+                   lambda: Tag("div", d).render(), lambda: str(Tag("div", d)), lambda: Tag("div", d).tagify(),
+                   lambda: HTMLDocument(Tag("div", d)).render(lib_prefix=None)]
+            for i, op in enumerate(ops):
+                safe_call(op)
+                ctx.count(("env-source", sd, i), True, "environment-shaped source path")
+                if d.__dict__ != before or not (d == twin):
+                    ctx.violation("a read-only dependency method / rendering route changed the dependency it was called on "
+                                  "(a source path that the environment could expand: ~, $VAR, relative)",
+                                  {"subdir": sd, "operation_index": i},
+                                  {"impl_output": repr(d.source), "expected": repr(before.get("source"))})
+                    break
+
+
 # ---- generators ---------------------------------------------------------------------------
 # Description language of this harness (a superset of trees.py's; JSON-able):
 #   ('S', i)                         the i-th shared object (aliasing)
@@ -1751,6 +1781,7 @@ def run(ctx: Ctx) -> None:
                        "documents, save_html -- are decided by the specification oracle alone (snapshots, twins, repeats)"]
     ctx.proof()
     known_shape_eq_after_with(ctx)
+    environment_shaped_sources(ctx)
 
     # ---- step B: correspondence with the extracted heap model ------------------------------
     cases = []
